@@ -28,7 +28,7 @@ META = {
             "after it; one fetch in flight per key; TTL freshness; cache hits; fallback only when every backend "
             "failed).",
     "design_ref": "DESIGN.md section 4, C32",
-    "level_note": "Cache keys a and b of the model are one backend with two client protocols. A status counts as obtained when its backend fetch completes. Overlapping calls are judged by "
+    "level_note": "A status counts as obtained before a reset when its backend fetch BEGAN before the reset began (it was asked under the old configuration), which is what the generation stamp enforces; the weaker reading (fetch completed before) is implied. Cache keys a and b of the model are one backend with two client protocols. Overlapping calls are judged by "
                   "the weakest reading (a rule fires only if violated for every placement of the reset/tick inside "
                   "its begin..end interval). TTL is exercised on the cache object with a fake clock in steps larger "
                   "than the TTL; end to end the TTL is one hour and only hits/resets are exercised. Cached failures "
@@ -59,6 +59,25 @@ def store_in_reset_window(x):
     return False
 
 
+def fetch_spans_reset(x):
+    """a flight begins its fetch before a reset thread starts and stores (third step) after that reset
+    finished, and another load thread starts after the store (sampling aid only, no verdict role)"""
+    prog, sched = x["prog"], x["sched"]
+    pos = {}
+    for i, t in enumerate(sched):
+        pos.setdefault(t, []).append(i)
+    for r, o in prog.items():
+        if o["op"] != "reset" or len(pos.get(r, [])) < 3:
+            continue
+        a, b = pos[r][0], pos[r][2]
+        for t, o2 in prog.items():
+            f = pos.get(t + "f", [])
+            if o2["op"] == "load" and len(f) >= 3 and f[0] < a and b < f[2]:
+                if any(o3["op"] == "load" and u != t and pos.get(u) and pos[u][0] > f[2] for u, o3 in prog.items()):
+                    return True
+    return False
+
+
 def run(ctx):
     r = ctx.tlc("PingCache", ctx.pick("PingCache_q.cfg", "PingCache.cfg"), timeout=1500)
     mc_states = r.distinct
@@ -76,9 +95,11 @@ def run(ctx):
         # quick forces a sample: schedules in which a fetched status is stored while a reset sits between
         # its gate points, and another request starts after that reset, come first
         win = [x for x in s3 if store_in_reset_window(x)]
-        oth = [x for x in s3 if not store_in_reset_window(x)]
+        span = [x for x in s3 if fetch_spans_reset(x) and not store_in_reset_window(x)]
+        oth = [x for x in s3 if not store_in_reset_window(x) and not fetch_spans_reset(x)]
         nwin = len(win)
-        s3 = (win * 3)[:30] + oth[:130]   # the few window schedules are forced three times each
+        # the few window schedules are forced three times each; then fetches that span a whole reset
+        s3 = (win * 3)[:30] + span[:25] + oth[:110]
     else:
         nwin = sum(1 for x in s3 if store_in_reset_window(x))
     s4 = ctx.tlc("PingCache", "PingCache_sched4.cfg", workers=1, count=False,
@@ -89,9 +110,19 @@ def run(ctx):
     with open(ctx.path("sched.json"), "w") as fh:
         json.dump(scheds, fh)
 
-    ctx.harness("./c32", "TestSchedules", race=not ctx.quick, timeout=1800,
+    p = ctx.harness("./c32", "TestSchedules", race=not ctx.quick, timeout=1800, check=False,
                 env={"VERIF_STRESS": ctx.pick(80, 1500), "VERIF_E2E": ctx.pick(8, 80),
                      "VERIF_RESOLVE": ctx.pick(40, 400)})
+    if p.returncode != 0:
+        if "DATA RACE" not in p.stdout:
+            raise vlib.ToolError("harness failed (rc=%d):\n%s" % (p.returncode, "\n".join(p.stdout.splitlines()[-60:])))
+        import re
+        for blk in p.stdout.split("WARNING: DATA RACE")[1:]:
+            fns = re.findall(r"gate/pkg/edition/java/lite\.(\w+)", blk)
+            if not fns:
+                raise vlib.ToolError("data race outside gate's lite package (harness?):\n" + blk[:1500])
+            ctx.finding("race:" + fns[0], "Go race detector: unsynchronised access in lite.%s while a status request whose "
+                        "client went away and the shared backend fetch overlap" % fns[0], {"report": blk[:2500]})
     st = json.load(open(ctx.path("stats.json")))
     missing = [g for g in GATES if not st["gate_arrivals"].get(g)]
     if missing:
@@ -114,7 +145,7 @@ def run(ctx):
         elif ev == "fbegin":
             key = "second-fetch-in-flight"
         elif ev == "resolve":
-            key = "fallback:" + str(bad.get("result"))
+            key = "fallback:" + str(bad.get("result")) + (":requester-gone" if bad.get("kind") == "requester-gone" else "")
         else:
             key = "history-rejected:" + str(ev)
         kind = rj["run"][0].get("kind", "cache")
@@ -139,6 +170,7 @@ def run(ctx):
         "e2e_reloads": st["e2e_reloads"],
         "fallback_scenarios": st["resolves"],
         "fallback_answers": st["fallback_answers"],
+        "requester_gone_scenarios": st["requester_gone_scenarios"],
         "trace_events_validated": matched,
         "race_detector": not ctx.quick,
         "exhaustive": False,
